@@ -24,6 +24,21 @@ def hx(s):
     return hexs(s.encode("utf-8"))
 
 
+def add_existing(args, files):
+    """An argument that happens to name something that exists in the working directory (e.g. the fragment "." is
+    the current directory: `File::open` succeeds, `read_to_string` fails) is described to the model as it is."""
+    for a in args:
+        if a in files or not a:
+            continue
+        if os.path.isdir(a):
+            files[a] = ("utf8", "")
+        elif os.path.isfile(a):
+            try:
+                files[a] = ("ok", open(a, encoding="utf-8").read())
+            except Exception:
+                files[a] = ("utf8", "")
+
+
 def gen_case(rnd, tmpdir, idx):
     """Random command line: flags in random order with repeats, files, bare code arguments."""
     files = {}
@@ -64,6 +79,7 @@ def gen_case(rnd, tmpdir, idx):
         else:
             args.append(rnd.choice(PROGRAMS) if rnd.random() < 0.6 else rnd.choice(FRAGS))
             code_parts += 1
+    add_existing(args, files)
     stdin = bytes(rnd.randint(0, 255) for _ in range(rnd.randint(0, 4)))
     return args, files, stdin
 
